@@ -170,7 +170,7 @@ class World:
 
     def new_token(self):
         self.token_n += 1
-        return "vf%dx%d" % (self.seed % 100000, self.token_n)
+        return "vf%dx%dz" % (self.seed % 100000, self.token_n)
 
     @staticmethod
     def success(eff):
